@@ -239,11 +239,17 @@ def parsePattern (s : Bytes) : Except Nat Pat :=
       | .error off => .error off
       | .ok () => .ok { scheme := a.scheme, absolute := a.absolute, segs := segments.map Segment.toSeg }
 
-def Pat.params (p : Pat) : List Bytes :=
-  p.segs.filterMap fun s => match s with | .param n => some n | .lit _ => none
+def Seg.name? : Seg → Option Bytes
+  | .param n => some n
+  | .lit _ => none
 
-def Pat.lits (p : Pat) : List Bytes :=
-  p.segs.filterMap fun s => match s with | .lit n => some n | .param _ => none
+def Seg.lit? : Seg → Option Bytes
+  | .lit l => some l
+  | .param _ => none
+
+def Pat.params (p : Pat) : List Bytes := p.segs.filterMap Seg.name?
+
+def Pat.lits (p : Pat) : List Bytes := p.segs.filterMap Seg.lit?
 
 /-! ### `HashMap<String, String>` as an association list -/
 
